@@ -157,6 +157,19 @@ def run(ctx):
     rule_qlim(ctx)
     from rules.C01 import rule_zip_sibling
     rule_zip_sibling(ctx)
+    from rules.C01 import rule_zip
+    rule_zip(ctx)      # ZIP-LAW: bus demand and per-load results follow p*scaling*(cp + ci v + cz v^2) (shared with C01)
+    RC = "SETPOINT-CONFLICT"
+    ctx.rule(RC, "_check_voltage_setpoints_at_same_bus compares the voltage set-points of ALL generator rows of a bus (reference buses "
+                 "included): two voltage-controlling elements with different vm_pu at one bus are rejected, otherwise one of the two set-points "
+                 "is silently not held")
+    fcs = ctx.repo.func("pandapower.build_gen:_check_voltage_setpoints_at_same_bus")
+    from ppsa.astutil import inline_locals
+    for nm, want in (("gen_bus", "ppc['gen'][:,GEN_BUS].astype(np.int64)"), ("gen_vm", "ppc['gen'][:,VG]")):
+        st = next((x for x in ast.walk(fcs.node) if isinstance(x, ast.Assign) and norm(x.targets[0], 12) == nm), None)
+        v = norm(inline_locals(fcs.node, st.value), 200).replace(" ", "").replace('"', "'") if st is not None else ""
+        ctx.ob(RC, f"pandapower.build_gen::_check_voltage_setpoints_at_same_bus::{nm}", v == want, f"{nm} = {v[:100]}" if v == want else
+               f"`{nm} = {v[:110]}` does not cover every generator row: conflicting set-points at the excluded buses are accepted", fcs.loc(st) if st is not None else fcs.loc())
     RB = "BYPASS-VOLTAGE"
     ctx.rule(RB, "when every bus is a reference bus the power flow is bypassed: _bypass_pf_and_set_results hands the complex set-point "
                  "vector (V0 = vm * exp(j va), with the generator magnitudes) to pfsoln - the magnitudes alone lose the ext_grid angles")
@@ -188,6 +201,8 @@ def variants(repo):
         V("demand adjusted by the stored limit", nr, replace_once("bus[bi, [PD, QD]] = (bus[bi, [PD, QD]] - gen[limited[i], [PG, QG]])", "bus[bi, PD] -= gen[limited[i], PG]\n                bus[bi, QD] -= fixedQg[limited[i]]"), "adjust"),
         V("twin: adjustment column by column", nr, replace_once("bus[bi, [PD, QD]] = (bus[bi, [PD, QD]] - gen[limited[i], [PG, QG]])", "bus[bi, PD] -= gen[limited[i], PG]\n                bus[bi, QD] -= gen[limited[i], QG]"), None),
         V("loop exits with lower violations", nr, replace_once("if len(mx) > 0 or len(mn) > 0:", "if len(mx) > 0:"), "QLIM-LOOP"),
+        V("zip result without scaling", rb, in_function("write_voltage_dependend_load_results", replace_once('pl = l["p_mw"].values * scaling * load_is * volt_depend_p', 'pl = l["p_mw"].values * load_is * volt_depend_p')), "ZIP-LAW"),
+        V("set-point conflicts checked at pv buses only", bg, replace_once("    gen_vm = ppc['gen'][:, VG]\n", "    gen_vm = ppc['gen'][ppc['bus'][gen_bus, BUS_TYPE] == PV, VG]\n"), "SETPOINT-CONFLICT"),
         V("bypass with magnitudes only", "pandapower/powerflow.py", in_function("_bypass_pf_and_set_results", replace_once("    V = V0\n", '    V = ppci["bus"][:, VM]\n')), "BYPASS-VOLTAGE"),
         V("ordinary gen at the slack bus shares the slack power", "pandapower/pypower/pfsoln.py", replace_once("gen[ext_grids, PG] = p_ext_grids / len(ext_grids)", "gen[gens_at_bus, PG] = p_bus / len(gens_at_bus)"), "SPLIT-TOTAL"),
         V("zip coefficient not averaged", "pandapower/build_bus.py", in_function("_calc_pq_elements_and_add_on_ppc", replace_once("CZD_Q] = cz_q_sum / no_loads", "CZD_Q] = cz_q_sum")), "ZIP-SIBLING"),
